@@ -693,11 +693,184 @@ def sequence_case(sh, i):
                                                    'assets_created': len(lc.created), 'late_worked': worked})
 
 
+def run_late_path(sh, sp, variant, case):
+    """source -> M1 -> [path through a shared group] -> sink, the path and its sink appearing at t.
+    'late': path and sink are created at t (from an event, or between two simulate() calls);
+    'blocked': the same route exists from the start with the path's input blocked, and is unblocked at t -
+    a different mechanism (block_input) that must give the same flow of parts."""
+    from simprocesd.model import System
+    from simprocesd.model.factory_floor import Source, PartHandler, PartProcessor, Buffer, Group, Sink
+    instrument.install()
+    lc = Lifecycle(sh, case)
+    bus = instrument.Bus(ties.make_policy('fifo', 0))
+    bus.attach(lc)
+    with instrument.use_bus(bus):
+        system = System()
+        src = Source(name='src', cycle_time=sp['src_ct'])
+        if sp['m1'] == 'buffer':
+            m1 = Buffer(name='M1', upstream=[src], capacity=sp['m1_cap'])
+        elif sp['m1'] == 'processor':
+            m1 = PartProcessor(name='M1', upstream=[src], cycle_time=sp['m1_ct'])
+        else:
+            m1 = PartHandler(name='M1', upstream=[src], cycle_time=sp['m1_ct'])
+        member = PartHandler(name='member', cycle_time=sp['member_ct'])
+        grp = Group('cell', [member])
+        if sp['other_path']:
+            # the cell is already used by another route (its entry station may be busy at t)
+            src2 = Source(name='src2', cycle_time=sp['src2_ct'])
+            p2 = grp.get_new_group_path('other', [src2])
+            Sink(name='sink2', upstream=[p2], cycle_time=sp['sink2_ct'])
+        made = {}
+
+        def attach():
+            made['path'] = grp.get_new_group_path('route', [m1])
+            made['sink'] = Sink(name='sink', upstream=[made['path']], cycle_time=sp['sink_ct'])
+        attach.__name__ = 'attach_route'
+
+        def unblock():
+            made['path'].block_input = False
+        unblock.__name__ = 'unblock_route'
+        t = sp['t']
+        if variant == 'blocked':
+            attach()
+            made['path'].block_input = True
+        if sp['between']:
+            system.simulate(t, print_summary=False)
+            (attach if variant == 'late' else unblock)()
+            system.simulate(sp['horizon'] - t, print_summary=False)
+        else:
+            system.env.schedule_event(t, -2, attach if variant == 'late' else unblock, 6)
+            system.simulate(sp['horizon'], print_summary=False)
+        lc.final({system})
+    rec = system.simulation_data.get('received_part', {})
+    out = {name: [r[0] for r in rec.get(name, [])] for name in ('M1', 'member', 'sink', 'sink2')}
+    out['sink_count'] = made['sink'].received_parts_count
+    return out, lc
+
+
+def late_path_case(sh, i):
+    seed = core.stable_int(sh.seed, 'C20path', i)
+    rng = random.Random(seed)
+    sp = {'src_ct': rng.choice([0.5, 1, 2]), 'm1': rng.choice(['handler', 'processor', 'buffer']),
+          'm1_ct': rng.choice([0, 0.5, 1]), 'm1_cap': rng.choice([1, 2, 4]),
+          'member_ct': rng.choice([0, 0.5, 1, 2]), 'sink_ct': rng.choice([0, 0.5, 1]),
+          'other_path': rng.random() < 0.5, 'src2_ct': rng.choice([0.5, 1, 3]), 'sink2_ct': rng.choice([0, 1]),
+          't': rng.randrange(1, 120) / 8.0, 'between': rng.random() < 0.5, 'horizon': 30.0}
+    case = {'engine': 'late_path', 'spec': sp}
+    try:
+        a, lca = run_late_path(sh, sp, 'late', case)
+        b, lcb = run_late_path(sh, sp, 'blocked', case)
+    except Exception as e:
+        import traceback
+        sh.violation('late_creation_crash', f'{type(e).__name__}: {e} {traceback.format_exc()[-1200:]}', case,
+                     engine='late_path')
+        sh.case_done({'path': seed}, False)
+        return
+    if not (lca.failed or lcb.failed):
+        if a != b:
+            k = next(n for n in a if a[n] != b[n])
+            sh.violation('late_twin_differs', f'a route through a shared cell created at {sp["t"]} '
+                         f'({"between two runs" if sp["between"] else "from an event"}) differs from the same route '
+                         f'built before the start and unblocked at that instant: {k}: {a[k]} vs {b[k]}', case,
+                         engine='late_path')
+        else:
+            sh.count('late_path_twins_equal')
+            if a['sink_count']:
+                sh.count('late_paths_that_delivered')
+    sh.case_done({'path': seed}, a['sink_count'] > 0, sample={'scenario': 'late_path', 'spec': sp,
+                                                             'delivered': a['sink_count']})
+
+
+class MultiSim:
+    """The simulation function handed to System.simulate_multiple_times (in-process runs)."""
+
+    def __init__(self, seed, made):
+        self.seed, self.made = seed, made
+        self.__name__ = 'multi_sim'
+
+    def __call__(self, system, index):
+        rng = random.Random(self.seed * 31 + index)
+        self.made.append((system, make_assets(rng, f'm{index}', rng.randint(1, 3))))
+        if rng.random() < 0.8:
+            system.simulate(rng.choice([1, 2.5, 4]), print_summary=False)
+
+
+def multi_case(sh, i):
+    """System creations hidden inside System.simulate_multiple_times(..., max_processes=0): afterwards the most
+    recently created System is the last one it returned - new assets belong to it, only it can simulate."""
+    from simprocesd.model import System
+    from simprocesd.model.factory_floor import PartHandler
+    seed = core.stable_int(sh.seed, 'C20multi', i)
+    rng = random.Random(seed)
+    case = {'engine': 'multi', 'seed': seed}
+    instrument.install()
+    lc = Lifecycle(sh, case)
+    bus = instrument.Bus(ties.make_policy(rng.choice(['prng', 'fifo', 'lifo']), seed % 1000))
+    bus.attach(lc)
+    try:
+        with instrument.use_bus(bus):
+            before = None
+            simulated = set()
+            if rng.random() < 0.7:
+                before = System()
+                make_assets(rng, 'own', rng.randint(1, 3))
+                if rng.random() < 0.5:
+                    before.simulate(rng.choice([1, 2]), print_summary=False)
+                    simulated.add(before)
+            made = []
+            n = rng.choice([1, 2, 3])
+            systems = System.simulate_multiple_times(MultiSim(seed, made), n, 0)
+            if len(systems) != n or any(a is not b[0] for a, b in zip(systems, made)):
+                lc.fail('multi_run_systems', f'simulate_multiple_times(.., {n}, 0) returned {len(systems)} systems; the '
+                        f'simulation function was handed {len(made)}')
+            for s_ in systems:
+                if s_._simulation_is_initialized:
+                    simulated.add(s_)
+            newest = systems[-1]
+            # an asset created now belongs to the most recently created System
+            h = PartHandler(name='after_multi')
+            if h not in newest.find_assets() or any(h in s_.find_assets() for s_ in systems[:-1]) \
+                    or (before is not None and h in before.find_assets()):
+                lc.fail('not_registered', 'an asset created after simulate_multiple_times(.., 0) is not registered with '
+                        'the most recently created System (the last one returned)')
+            if newest in simulated and h.env is None:
+                lc.fail('late_not_initialised', 'an asset created after simulate_multiple_times(.., 0) for a System that '
+                        'has already run was not initialised at once')
+            for s_ in ([before] if before is not None else []) + systems[:-1]:
+                try:
+                    s_.simulate(1, print_summary=False)
+                    lc.fail('superseded_system_simulated', 'a System older than the last one created by '
+                            'simulate_multiple_times(.., 0) simulated')
+                except RuntimeError:
+                    sh.count('superseded_system_rejected')
+            if not lc.failed:
+                try:
+                    newest.simulate(1.5, print_summary=False)
+                    simulated.add(newest)
+                    sh.count('newest_system_of_a_multi_run_continued')
+                except RuntimeError as e:
+                    lc.fail('newest_system_refused', f'the most recently created System (last of the in-process multi '
+                            f'run) refused to simulate: {e}')
+            if not lc.failed:
+                lc.final(simulated)
+    except Exception as e:
+        import traceback
+        sh.violation('lifecycle_crash', f'{type(e).__name__}: {e} {traceback.format_exc()[-1200:]}', case,
+                     engine='multi')
+    sh.case_done({'multi': seed}, True, sample={'scenario': 'multi', 'seed': seed, 'assets_created': len(lc.created)})
+
+
 def run(sh):
     n = 510 if sh.tier == 'quick' else 90000
-    for i in sh.share(n):
+    n_multi = 160 if sh.tier == 'quick' else 16000
+    for i in sh.share(n + n_multi):
         k = i % 3
-        if k == 0 and (i // 3) % 2:
+        if i >= n:
+            if i % 2:
+                multi_case(sh, i)
+            else:
+                late_path_case(sh, i)
+        elif k == 0 and (i // 3) % 2:
             generated_subline_case(sh, i)
         elif k == 0:
             subline_case(sh, i)
@@ -721,5 +894,10 @@ def replay(sh, v):
         b, _, _ = run_branch(sh, case['spec'], case['branch'], case['t_attach'], 'pre', case)
         if a != b:
             sh.violation('late_twin_differs', first_diff(a, b), case, engine='branch')
+    elif e == 'late_path':
+        a, _ = run_late_path(sh, case['spec'], 'late', case)
+        b, _ = run_late_path(sh, case['spec'], 'blocked', case)
+        if a != b:
+            sh.violation('late_twin_differs', f'{a} vs {b}', case, engine='late_path')
     else:
         print('sequence scenarios are replayed by seed: VERIF_SEED and the case index')
